@@ -168,6 +168,13 @@ func evalCase(c *Case) (kind, sig, msg string) {
 	return "", "", ""
 }
 
+func min64(a, b int64) int64 {
+	if a < b {
+		return a
+	}
+	return b
+}
+
 var types = []string{"update", "recover", "deactivate"}
 
 func nearBoundary(c *Case) bool {
@@ -216,7 +223,7 @@ func TestBoundarySweep(t *testing.T) {
 	for _, kt := range []keys.Type{keys.Ed25519, keys.P256} {
 		for _, typ := range types {
 			for _, delta := range deltas {
-				for _, w := range [][2]int64{{0, 0}, {a, 0}, {a, u}, {0, u}} {
+				for _, w := range [][2]int64{{0, 0}, {a, 0}, {a, u}, {0, u}, {u, a}, {a, a}, {a, a - 1}} {
 					p := baseParams()
 					p.TimeDelta = delta
 					eff := w[1]
@@ -267,7 +274,7 @@ func TestBoundarySweep(t *testing.T) {
 }
 
 func TestRapidTriples(t *testing.T) {
-	ev.Rule(chkRapid, "rapid: (anchorFrom, anchorUntil, anchoring time) triples drawn around the boundaries with drawn maxOperationTimeDelta and drawn unrelated parameters (pairwise distinct), all 5 key types and both hash algorithms; in one case of three a second protocol version with another delta is in force (genesis at or just after the anchoring time) and the operation is stamped with either version - the stamped version's delta governs; same oracle")
+	ev.Rule(chkRapid, "rapid: (anchorFrom, anchorUntil, anchoring time) triples drawn around the boundaries (incl. empty windows: anchorUntil before anchorFrom) with drawn maxOperationTimeDelta and drawn unrelated parameters (pairwise distinct), all 5 key types and both hash algorithms; in one case of three a second protocol version with another delta is in force (genesis at or just after the anchoring time) and the operation is stamped with either version - the stamped version's delta governs; same oracle")
 	ev.Rapid(t, chkRapid, 600, 6000, func(t *rapid.T) {
 		p := baseParams()
 		p.TimeDelta = uint64(rapid.IntRange(1, 200000).Draw(t, "timeDelta"))
@@ -278,6 +285,10 @@ func TestRapidTriples(t *testing.T) {
 		until := int64(0)
 		if rapid.Bool().Draw(t, "hasUntil") {
 			until = from + int64(rapid.IntRange(1, 300000).Draw(t, "untilOffset"))
+			if from > 1 && rapid.IntRange(0, 4).Draw(t, "emptyWindow") == 0 {
+				// an empty window (anchorUntil before anchorFrom): no anchoring time is inside it
+				until = from - int64(rapid.IntRange(1, int(min64(from-1, 5000))).Draw(t, "untilBefore"))
+			}
 		}
 		eff := until
 		if from != 0 && until == 0 {
@@ -386,13 +397,13 @@ func replayIntake(raw json.RawMessage) (string, string) {
 }
 
 func TestIntakeTimeValidator(t *testing.T) {
-	ev.Rule(chkIntake, "deterministic sweep: type x window shape {(0,0),(a,0),(a,u),(0,u)} x 5 maxOperationTimeDelta values x {base, 5 single-parameter variations} x 5 key types; a recording TimeValidator installed with WithAnchorTimeValidator must receive exactly (anchorFrom, effective anchorUntil); non-trivial = anchorUntil defaulted (from set, until missing)")
+	ev.Rule(chkIntake, "deterministic sweep: type x window shape {(0,0),(a,0),(a,u),(0,u),(u,a) empty,(a,a),(a,a-1) empty} x 5 maxOperationTimeDelta values x {base, 5 single-parameter variations} x 5 key types; a recording TimeValidator installed with WithAnchorTimeValidator must receive exactly (anchorFrom, effective anchorUntil); non-trivial = anchorUntil defaulted (from set, until missing)")
 	const a, u = int64(100000), int64(150000)
 	item := 0
 	for _, kt := range keys.AllTypes {
 		for _, typ := range types {
 			for _, delta := range []uint64{1, 61, 7207, 30011, 86413} {
-				for _, w := range [][2]int64{{0, 0}, {a, 0}, {a, u}, {0, u}} {
+				for _, w := range [][2]int64{{0, 0}, {a, 0}, {a, u}, {0, u}, {u, a}, {a, a}, {a, a - 1}} {
 					p := baseParams()
 					p.TimeDelta = delta
 					for _, cfg := range append([]Params{p}, altConfigs(p)...) {
